@@ -342,7 +342,7 @@ class C03(EvalProp):
                   "back as a query.")
     level_note = "D6 (raw, unescaped result paths) is entrenched by unit tests single_quote, name_sel, tab_key; known finding"
     rule = ("random pairs incl. hostile member names; observable = (location, path) per result, path compared with the Coq-computed "
-            "Normalized Path; phase 2 re-queries every plain reported path; non-trivial = RFC nodelist non-empty")
+            "Normalized Path; phase 2 re-queries every plain reported path; non-trivial = RFC nodelist non-empty; plus a 1234-element array (alone and nested) reached by index, negative index, slice, union, wildcard, filter and descendant, so that paths carry indices of up to four digits")
 
     def cases(self):
         out = []
@@ -1422,7 +1422,7 @@ class C15(EvalProp):
                   "cannot use anything else. The selector lemmas C11_index / C11_slice_nodes are proved for every instance. The harness "
                   "contains a second, independent Rust implementation of Queryable (vector-backed objects, separate int/uint/float kinds); "
                   "every generated query is evaluated by the crate's engine over both representations of the same document and the results "
-                  "(locations found by address, path strings, order) must be identical, and equal to the model's and the RFC's.")
+                  "(locations found by address, path strings, order) must be identical, and equal to the model's and the RFC's. A further stream builds the second Queryable directly from the generated document with the members of every object in shuffled order (a Queryable may present members in any order): the engine over it, under both accessor styles, must agree with the model and the RFC semantics evaluated on that ordered view -- wildcards, descendants and filters follow the order presented, equality and the extension functions do not depend on it.")
     level_note = "the simulation theorem between two arbitrary faithful instances is stated in Properties/C15.v; see its header for what is proved"
     rule = ("random (query, document) pairs as programmatically built ASTs evaluated through js_path_process::<V> for the second Queryable V "
             "and through js_path_process::<Value>; observable = (location by address, path) sequences of both; non-trivial = non-empty RFC result")
